@@ -2,7 +2,7 @@
 From Coq Require Import String.
 From Coq Require Import List NArith ZArith Bool.
 From Dials Require Export Base.Outcome Base.Runes Reflect.Ty Transform.RType Transform.MAlias
-  Transform.Manglers Transform.Transformer.
+  Transform.Manglers Transform.Transformer Transform.WellFormed.
 Import ListNotations.
 Open Scope N_scope.
 
@@ -100,20 +100,10 @@ Definition model_reverse (E : env) (t : ty) (ms : list mangler) (filled : list v
   r <- model_translate t ms ;;
   reverse (fuel_for t) E ms (snd r) (fst r, VStruct filled).
 
-(* ---- the types the property quantifies over: what Pointerify produces ---- *)
-Fixpoint ptrified_ty (t : ty) : bool :=
-  match t with
-  | TPtr (TStruct fs _) => ptrified_fields fs
-  | TPtr _ | TSlice _ _ | TMap _ _ _ | TIface => true
-  | _ => false
-  end
-with ptrified_fields (fs : fields) : bool :=
-  match fs with
-  | FNil => true
-  | FCons n tg _ t r => negb (omit_field n tg) && ptrified_ty t && ptrified_fields r
-  end.
+(* ---- the types the property quantifies over: what Pointerify produces
+        (the same predicate the theorems of Properties/C10.v assume) ---- *)
 Definition supported (t : ty) : bool :=
-  match t with TStruct fs _ => ptrified_fields fs | _ => false end.
+  match t with TStruct fs _ => wf_fields fs | _ => false end.
 
 (* known-finding class 1: an alias tag on an embedded (anonymous) struct field
    in a chain that later flattens: both copies contribute the same names *)
